@@ -309,6 +309,7 @@ func (c *channel) receiver() {
 			// old stream will never get one: respond with a stream is down error.
 			lastStream = c.gorumsStream
 			c.streamMut.RUnlock()
+			vEmit("RecvStreamReplaced", c.node.ID(), 0)
 			c.cancelPendingMsgs()
 			continue
 		}
